@@ -474,4 +474,19 @@ def c19(ctx):
     return res
 
 
-PLUGINS = {"C19": c19, "C01": c01, "C20": c20, "C14": c14, "C18": c18, "C15": c15, "C13": c13, "C08": c08, "C11": c11, "C02": c02, "C06": c06, "C10": c10, "C05": c05, "C09": c09, "C04": c04, "C07": c07, "C12": c12}
+def c16(ctx):
+    """C16 Batch: callers run non-idempotent functions (each invocation bumps the caller's counter and records itself in the database); scripts make invocations return an error or panic on the
+    first, a later or every invocation. Half of the cases are deterministic batches (arrival order fixed through the verif accessor VerifBatchLen, batch runs when full): Batch.run_batch predicts
+    every caller's result, the committed invocation number and the number of invocations exactly (K). The other half are free-running callers (2-32) with MaxBatchSize in {0,1,2,n,1000} and
+    MaxBatchDelay in {0,1ms,10ms}. (S) on all: nil <=> exactly one committed invocation and counter 1; error or panic <=> none."""
+    res = Result()
+    res.rule = "one case = one batch scenario (callers, scripts, batch size, delay); distinct by MD5 of these; non-trivial if some call failed or panicked; evaluations = callers judged"
+    with ctx:
+        quick = ctx.tier == "quick" or ctx.budget_s
+        runs = run_sharded(ctx, "c16", 8 if ctx.tier == "quick" else 16, lambda i: ["-seed", str(ctx.seed * 1000 + i), "-n", "300" if quick else "6000"], ctx.budget_s or (900 if ctx.tier == "quick" else 3000))
+        for r in runs:
+            absorb(res, "C16", *r)
+    return res
+
+
+PLUGINS = {"C16": c16, "C19": c19, "C01": c01, "C20": c20, "C14": c14, "C18": c18, "C15": c15, "C13": c13, "C08": c08, "C11": c11, "C02": c02, "C06": c06, "C10": c10, "C05": c05, "C09": c09, "C04": c04, "C07": c07, "C12": c12}
